@@ -526,10 +526,16 @@ as numpy.loadtxt will not work as expected."""
         """Datatype of the polynomial coefficients."""
         return self._dtype
 
+    def _fields(self) -> List[numpy.ndarray]:
+        """Coefficient arrays, also of an array without elements."""
+        # ``coefficients`` is an empty list for arrays without elements, which
+        # would lose their shape
+        return self.coefficients or [self.values[str(key)] for key in self.keys]
+
     def astype(self, dtype: Any, **kwargs: Any) -> "ndpoly":  # type: ignore
         """Wrap ndarray.astype."""
         coefficients = [
-            coefficient.astype(dtype, **kwargs) for coefficient in self.coefficients
+            coefficient.astype(dtype, **kwargs) for coefficient in self._fields()
         ]
         return numpoly.polynomial_from_attributes(
             exponents=self.exponents,
@@ -664,7 +670,7 @@ as numpy.loadtxt will not work as expected."""
         """
         return numpoly.polynomial_from_attributes(
             exponents=self.exponents,
-            coefficients=[coeff[index] for coeff in self.coefficients],
+            coefficients=[coeff[index] for coeff in self._fields()],
             names=self.names,
         )
 
@@ -748,7 +754,7 @@ as numpy.loadtxt will not work as expected."""
             numpoly.polynomial_from_attributes,
             (
                 self.exponents,
-                self.coefficients,
+                self._fields(),
                 self.names,
                 self.dtype,
                 self.allocation,
